@@ -1,0 +1,103 @@
+//go:build verif
+
+// Package verifhook provides named instrumentation points for the runtime-monitoring
+// harness in /verif. With the `verif` build tag a point counts its hits and runs the
+// action configured for its name: an in-process callback set with Set, or an action from
+// the VERIF_HOOKS environment variable, a comma separated list of
+//
+//	name=sleep:20ms   sleep at every hit
+//	name=yield        runtime.Gosched at every hit
+//	name=kill@3       SIGKILL this process at the 3rd hit
+package verifhook
+
+import (
+	"os"
+	"runtime"
+	"strconv"
+	"strings"
+	"sync"
+	"sync/atomic"
+	"syscall"
+	"time"
+)
+
+type point struct {
+	hits atomic.Int64
+	fn   atomic.Pointer[func()]
+}
+
+var points sync.Map // name -> *point
+
+func get(name string) *point {
+	if p, ok := points.Load(name); ok {
+		return p.(*point)
+	}
+	p, _ := points.LoadOrStore(name, new(point))
+	return p.(*point)
+}
+
+// Point marks a named instrumentation point.
+func Point(name string) {
+	p := get(name)
+	p.hits.Add(1)
+	if f := p.fn.Load(); f != nil {
+		(*f)()
+	}
+}
+
+// Set installs (or, with nil, removes) the action run at every hit of the named point.
+func Set(name string, f func()) {
+	p := get(name)
+	if f == nil {
+		p.fn.Store(nil)
+		return
+	}
+	p.fn.Store(&f)
+}
+
+// Hits returns how often the named point has been reached.
+func Hits(name string) int64 { return get(name).hits.Load() }
+
+// AllHits returns the hit counters of every point reached or configured so far.
+func AllHits() map[string]int64 {
+	m := map[string]int64{}
+	points.Range(func(k, v any) bool {
+		m[k.(string)] = v.(*point).hits.Load()
+		return true
+	})
+	return m
+}
+
+// Enabled reports whether the package was built with the verif tag.
+func Enabled() bool { return true }
+
+func init() {
+	spec := os.Getenv("VERIF_HOOKS")
+	if spec == "" {
+		return
+	}
+	for _, item := range strings.Split(spec, ",") {
+		name, action, ok := strings.Cut(strings.TrimSpace(item), "=")
+		if !ok {
+			continue
+		}
+		switch {
+		case action == "yield":
+			Set(name, runtime.Gosched)
+		case strings.HasPrefix(action, "sleep:"):
+			if d, err := time.ParseDuration(action[len("sleep:"):]); err == nil {
+				Set(name, func() { time.Sleep(d) })
+			}
+		case strings.HasPrefix(action, "kill@"):
+			if n, err := strconv.ParseInt(action[len("kill@"):], 10, 64); err == nil {
+				p := get(name)
+				Set(name, func() {
+					if p.hits.Load() == n {
+						syscall.Kill(os.Getpid(), syscall.SIGKILL)
+						select {}
+					}
+				})
+			}
+		}
+	}
+}
